@@ -9,35 +9,30 @@
    token / stake unit, index = addresses of the existing validators, delegator
    accounts and validators agree (lists readable, both directions, balance =
    sum).  [safe ops] (Proofs.v / ProofsSim.hpre) says that no operation of the
-   history enters one of the four open finding classes
+   history enters one of the three open finding classes
      F5 delegate-from-missing-account (UpdateDelegation from an address without account),
      F7 stale-index-reload (GetValidatorsForUpdate while the in-memory index is
         empty and the persisted one is not: every validator removed since the last root),
      F8 copy-reindexes-removed-validator (Copy while a removed validator is
         finalised but not yet rooted),
-     F9 inplace-update-then-revert (RevertToSnapshot to a revision older than a
-        journal entry whose new value is an object that a caller has since changed
-        in place and passed to UpdateValidator(live, copy): OUpdateIn),
    or breaks the callers' discipline (stake = token/unit on creation, updates
    that move the total by the change of the self part, no delegation withdrawn
    below zero, RemoveValidator only of validators without delegations, valid
    roles and revision ids).  F7 and F8 need RemoveValidator, which no code of
-   the repository calls; F9 needs a revert across an in-place update, and the
-   in-place callers (pinned in Bridge.v from a go/ast inventory) all run in the
-   end-of-block processing, outside any snapshot.  The classes F1-F4, F6 of earlier revisions were
+   the repository calls.  Both calling conventions of UpdateValidator are
+   operations of the model (OUpdate: a copy carries the new values; OUpdateIn: the
+   stored record is written in place and passed as the new value; the call sites
+   are pinned in Bridge.v from a go/ast inventory) and neither is restricted.  The classes F1-F4, F6, F9 of earlier revisions were
    repaired in the repository (fe4c1ff, b4b663f, 20d771e, 464c034, 0cdbb3b,
-   877ecbf); their witnesses are regression cases now.  The ghost number t of
-   wf/R/hpre/taint_next is the length of the oldest part of the validator journal
-   that an in-place update has detached from what it recorded (0 unless an
-   OUpdateIn hits an object some journal entry points at; back to 0 when the
-   journal is cleared). *)
+   877ecbf, 7813a3d); their witnesses are regression cases now.  The ghost number t of
+   wf/R/hpre is 0 along every run from [init] (vestigial). *)
 From VF.C08 Require Import Model Abstract ProofsA ProofsSim Proofs Witnesses Bridge.
 Local Open Scope Z_scope.
 
 (* the full-strength statement: over every history whatsoever *)
 Definition C08_full : Prop := forall ops s, run init ops = Some s -> inv_all s = true.
 
-(* 1. it is false for the code as it is: four classes of histories break it *)
+(* 1. it is false for the code as it is: three classes of histories break it *)
 Theorem C08_full_refuted : ~ C08_full.
 Proof. exact full_statement_refuted. Qed.
 Print Assumptions C08_full_refuted.
@@ -86,9 +81,17 @@ Print Assumptions C08_refuted_stale_index_reload.
 Theorem C08_refuted_copy_reindexes_removed_validator : refutes w_f8.
 Proof. exact refuted_f8. Qed.
 Print Assumptions C08_refuted_copy_reindexes_removed_validator.
-Theorem C08_refuted_inplace_update_then_revert : refutes w_f9.
-Proof. exact refuted_f9. Qed.
-Print Assumptions C08_refuted_inplace_update_then_revert.
+(* the former class inplace-update-then-revert (7813a3d): teDelegationSub's statement
+   sequence between a snapshot and a revert is a safe history satisfying the property -
+   an instance of C08_inv_holds_outside, which no longer restricts reverts after in-place
+   updates; the variant of the model for the code before the repair ([run_old]: the undo
+   of an update reads the journal's pointer), which the harness selects when it detects
+   that behaviour, violates the property on it *)
+Theorem C08_inplace_update_then_revert_holds :
+  holds_b w_f9 = true /\
+  match run_old init w_f9 with Some s => inv_all s = false | None => False end.
+Proof. exact (conj repaired_f9 prerepair_f9). Qed.
+Print Assumptions C08_inplace_update_then_revert_holds.
 
 (* the in-place calling convention as such is covered: the status change of
    staking.teDelegationSub (UpdateDelegation, then newVal.Status = Offline in place and
